@@ -219,6 +219,31 @@ def v_name(term, name):
     return h
 
 
+def _index_of(e, name):
+    """`e` is the data `name` or its time index: `y`, `y.index`, or a choice between the two on a
+    type test of `y` (`y.index if isinstance(y, pd.Series) else y`)."""
+    if isinstance(e, ast.Name):
+        return e.id == name
+    if isinstance(e, ast.Attribute):
+        return e.attr == "index" and isinstance(e.value, ast.Name) and e.value.id == name
+    if isinstance(e, ast.IfExp):
+        t = e.test
+        if isinstance(t, ast.UnaryOp) and isinstance(t.op, ast.Not):
+            t = t.operand
+        return isinstance(t, ast.Call) and ast.unparse(t.func) == "isinstance" and len(t.args) == 2 \
+            and isinstance(t.args[0], ast.Name) and t.args[0].id == name \
+            and _index_of(e.body, name) and _index_of(e.orelse, name)
+    return False
+
+
+def v_index_of(term, name):
+    def h(c, ctx):
+        if len(c.args) != 1 or c.keywords or not _index_of(c.args[0], name):
+            raise Unsupported("arguments in " + ast.unparse(c))
+        return term
+    return h
+
+
 VALIDATORS = {
     "check_y_X": v_check_y_X, "check_y": v_check_y, "check_X": v_check_X,
     "check_equal_time_index": v_equal_index,
@@ -236,7 +261,7 @@ VALIDATORS = {
 # per source file: names that mean something else there
 VALIDATORS_BY_FILE = {
     "sktime/forecasting/model_selection/_split.py": {
-        "check_time_index": v_name("VTimeIndex", "y")},
+        "check_time_index": v_index_of("VTimeIndex", "y")},
 }
 # private validation helpers: found by role (roles_c20: call graph from the public entry point),
 # whatever they are called in the tree at hand.  (label, receiver prefix, file or None = any, event)
@@ -297,7 +322,9 @@ class Ctx:
             from .roles_c20 import Roles
             self.roles = Roles(self.repo, self.mods)
         for label, prefix, src, h in ROLE_VALIDATORS:
-            if src is None or src == self.src:
+            if (src is None or src == self.src) and label in self.roles.name:
+                # (an unresolved role: its former call sites are plain statements, which the
+                # walker lists or refuses like any other code)
                 v[prefix + self.roles.name[label]] = h
         return v
 
@@ -672,7 +699,7 @@ class Chain:
             for x in ast.walk(st):
                 if isinstance(x, ast.Name) and isinstance(x.ctx, ast.Store):
                     counts[x.id] = counts.get(x.id, 0) + 1
-        pure_calls = re.compile(r"^(np\.(max|min|abs)|len|abs|min|max)$")
+        pure_calls = re.compile(r"^(np\.(max|min|abs)|len|abs|min|max|isinstance|type)$")
 
         def pure(e):
             for x in ast.walk(e):
